@@ -2,9 +2,10 @@ CONSTANT Hosts = {"ip", "name"}
 CONSTANT Heads <- HeadsQuick
 CONSTANT Lines <- LinesQuick
 CONSTANT Core <- CoreQuick
+CONSTANT Heads2 <- HeadsTwo
 CONSTANT MaxDirs = 2
 CONSTANT MaxLines = 3
-CONSTANT MaxLines2 = 1
+CONSTANT MaxLines2 = 2
 CONSTANT NameLines = 1
 CONSTANT Repaired = TRUE
 SPECIFICATION Spec
